@@ -143,6 +143,10 @@ def oracle(rep, rnd, tier, impl):
         ("def a = [1, 2]; def b = a + [3]; def c = a[0 to 2]; def d = sublist(a, 0); def e = [x for x in a]; append(b, 9); append(c, 9); "
          "append(d, 9); append(e, 9); a", "(list (i 1) (i 2))"),
         ("def s = <<1>>; def t = s; append(t, 2); [s, t]", "(list (set (i 1) (i 2)) (set (i 1) (i 2)))"),
+        # a default value is made anew for every call that leaves the argument out; an argument that is passed is shared with the caller
+        ("def f(a = []) do append(a, 1); a end; def x = f(); def y = f(); def z = [5]; f(z); append(x, 9); [x, y, z, f()]", "(list (list (i 1) (i 9)) (list (i 1)) (list (i 5) (i 1)) (list (i 1)))"),
+        ("def f(a = <<1>>, m = <<<>>>, o = <*n = 0*>) do append(a, 2); m['k'] = 1; o->n = o->n + 1; [a, m, o->n] end; f(); f()", "(list (set (i 1) (i 2)) (map ((s 107) (i 1))) (i 1))"),
+        ("def g = fn(acc = [[0], [0]]) do append(acc[0], 9); acc end; g(); g()", "(list (list (i 0) (i 9)) (list (i 0)))"),
         ("def m = <<<1 => 2>>>; def n = m; put(n, 3, 4); m[5] = 6; [m, n]",
          "(list (map ((i 1) (i 2)) ((i 3) (i 4)) ((i 5) (i 6))) (map ((i 1) (i 2)) ((i 3) (i 4)) ((i 5) (i 6))))"),
         ("def o = <*x = 1*>; def p = o; p->x = 2; o->x", "(i 2)"),
